@@ -66,6 +66,10 @@ pub trait VxStringB {
         ensures vx_utf8(final(self).vx_sv2()) == vx_utf8(old(self).vx_sv2()) + vx_utf8(s@);
     fn vx_push(&mut self, c: char)
         ensures vx_utf8(final(self).vx_sv2()) == vx_utf8(old(self).vx_sv2()) + vx_utf8(seq![c]);
+    /// `s.extend(std::iter::repeat(c).take(n))`: n copies of c are appended (for an ASCII c that is n bytes: ax_ascii_len)
+    fn vx_extend_repeat(&mut self, c: char, n: usize)
+        ensures vx_utf8(final(self).vx_sv2()) == vx_utf8(old(self).vx_sv2()) + vx_utf8(Seq::new(n as nat, |i: int| c)),
+            (c as u32) < 128 ==> vx_utf8(Seq::new(n as nat, |i: int| c)).len() == n;
     fn vx_as_str(&self) -> (r: &str) ensures r@ == self.vx_sv2();
 }
 impl VxStringB for String {
@@ -74,6 +78,7 @@ impl VxStringB for String {
     #[verifier::external_body] fn vx_truncate(&mut self, n: usize) { self.truncate(n) }
     #[verifier::external_body] fn vx_push_str(&mut self, s: &str) { self.push_str(s) }
     #[verifier::external_body] fn vx_push(&mut self, c: char) { self.push(c) }
+    #[verifier::external_body] fn vx_extend_repeat(&mut self, c: char, n: usize) { self.extend(std::iter::repeat(c).take(n)) }
     #[verifier::external_body] fn vx_as_str(&self) -> (r: &str) { self.as_str() }
 }
 #[verifier::external_body]
